@@ -5,7 +5,7 @@ CONSTANT ProtLen = 3
 CONSTANT TcLen = 5
 CONSTANT TcLenWide = 6
 CONSTANT DtsMaxCols = 2
-CONSTANT AccMaxCols = 2
+CONSTANT AccMaxCols = 1
 CONSTANT AccWideCols = 2
 INIT Init
 NEXT Next
